@@ -162,6 +162,26 @@ static void t_replace(const char *src, const char *tok, const char *word) {
         hm_free(buf); hm_free(ct); hm_free(cw); TICK("qstrreplace");
     }
 }
+/* long inputs: the result size of qstrreplace is a product of lengths (sizes 2^31 and 2^32 are products of quite ordinary lengths) */
+static void t_replace_large(size_t srclen, size_t nmatch, const char *tok, size_t wordlen, int mode) {
+    static const char *modes[4] = {"tn", "tr", "sn", "sr"};
+    size_t tl = strlen(tok);
+    char *word = hm_alloc(wordlen + 1); memset(word, 'w', wordlen); word[wordlen] = 0;
+    size_t wn = srclen - nmatch * tl + nmatch * wordlen, cap = (srclen > wn ? srclen : wn) + 1;
+    char *src = hm_alloc(cap), *want = hm_alloc(wn + 1); memset(src, 'x', srclen); src[srclen] = 0;
+    /* matches spread over the source, the first one at the very start, the last one at the very end */
+    size_t w = 0, at = 0;
+    for (size_t k = 0; k < nmatch; k++) { size_t pos = nmatch > 1 ? k * (srclen - tl) / (nmatch - 1) : 0; if (pos < at) pos = at; memcpy(src + pos, tok, tl); at = pos + tl; }
+    for (size_t i = 0; i < srclen; ) { if (i + tl <= srclen && !memcmp(src + i, tok, tl)) { memset(want + w, 'w', wordlen); w += wordlen; i += tl; } else want[w++] = src[i++]; } want[w] = 0;
+    char *ct = xs(tok);
+    char *r = qstrreplace(modes[mode], src, ct, word);
+    char in[80]; snprintf(in, sizeof in, "len%zu-matches%zu-word%zu", srclen, nmatch, wordlen);
+    if (!r) bad("qstrreplace", "null-large", in, "mode %s returned NULL for a source of %zu bytes with %zu match(es) and a word of %zu bytes (result %zu bytes)", modes[mode], srclen, nmatch, wordlen, w);
+    else if (strlen(r) != w || memcmp(r, want, w)) bad("qstrreplace", "large", in, "mode %s: result of %zu bytes differs from the reference (%zu bytes)", modes[mode], strlen(r), w);
+    else if ((mode & 1) && r != src) bad("qstrreplace", "memory-mode", in, "mode %s did not return the source buffer", modes[mode]);
+    if (r && !(mode & 1)) free(r);
+    hm_free(ct); hm_free(word); hm_free(src); hm_free(want); TICK("qstrreplace"); vf_count("replace_large_inputs", 1);
+}
 static void t_between(const char *s) {
     static const char *ST[] = {":", "a", "\""}, *EN[] = {":", "B", "\""};
     for (int i = 0; i < 3; i++) {
@@ -244,6 +264,15 @@ int main(int argc, char **argv) {
     /* formatted duplicate / append: every length 0..80 and 2^k-3 .. 2^k+3 for k = 8..17 (the growth steps of the internal buffer) */
     { long idx = 0; for (size_t l = 0; l <= 80; l++, idx++) if (vf_mine(base + idx)) { vf_case_begin(base + idx, "format length %zu", l); t_format(l); }
       for (int k = 8; k <= (L >= 7 ? 17 : 14); k++) for (long dlt = -3; dlt <= 3; dlt++, idx++) if (vf_mine(base + idx)) { size_t l = (size_t)((1L << k) + dlt); vf_case_begin(base + idx, "format length %zu", l); t_format(l); }
+      base += 100000000; }
+    /* qstrreplace on long inputs: (source length, matches, token, word length); products of the lengths around 2^31 and 2^32 */
+    { static const struct { size_t sl, nm; const char *tok; size_t wl; } LG[] = {
+          {5000, 10, "a", 3000}, {5000, 10, "${a}", 3000}, {70000, 3, "a", 100}, {65537, 2, "a", 65537}, {46341, 1, "a", 46341}, {65536, 1, "ab", 65536},
+          {(4u << 20), 1, "${a}", 4096}, {(1u << 20), 2, "${a}", 8192}, {300000, 2000, "ab", 7}, {100000, 50000, "a", 0}, {100000, 25000, "ab", 1} };
+      long idx = 0;
+      for (size_t i = 0; i < sizeof LG / sizeof LG[0]; i++) for (int m = 0; m < 4; m++, idx++) { if (!vf_mine(base + idx)) continue;
+          if ((m < 2) != (strlen(LG[i].tok) == 1)) continue;      /* one-character tokens exercise the token mode, longer ones the string mode */
+          vf_case_begin(base + idx, "qstrreplace mode %d on %zu bytes, %zu match(es), word of %zu bytes", m, LG[i].sl, LG[i].nm, LG[i].wl); t_replace_large(LG[i].sl, LG[i].nm, LG[i].tok, LG[i].wl, m); }
       base += 100000000; }
     /* random longer inputs */
     long nrand = vf_arg_long("random", 4000);
